@@ -368,6 +368,29 @@ func init() {
 			c.st.ghost[c.args[0].(StrV).lit] = c.args[1]
 			return true
 		},
+		"vGhostBool": func(e *Engine, c *callCtx) bool {
+			v, ok := c.st.ghost[c.args[0].(StrV).lit]
+			if !ok {
+				c.set(BoolV{e.tb.ff})
+				return true
+			}
+			c.set(v)
+			return true
+		},
+		"vGhostIsSet": func(e *Engine, c *callCtx) bool {
+			_, ok := c.st.ghost[c.args[0].(StrV).lit]
+			c.set(BoolV{e.tb.Bool(ok)})
+			return true
+		},
+		"vGhostBytes": func(e *Engine, c *callCtx) bool {
+			v, ok := c.st.ghost[c.args[0].(StrV).lit]
+			if !ok {
+				c.set(e.zeroVal(c.res.Type()))
+				return true
+			}
+			c.set(v)
+			return true
+		},
 		"vNote": func(e *Engine, c *callCtx) bool {
 			return true
 		},
